@@ -3,8 +3,9 @@ buffer.c readers, lib.c header/section readers, foam.c decoder, archive.c name t
 
 ASSUMPTIONS = [
     "refusal = bug()/_do_assert() reached (ghost g_diag set, path ends: the real ones print and abort()) or a failure value returned",
-    "buffer objects are exactly argc bytes (argc <= 64 symbolic): any access at or beyond argc is reported by --pointer-check",
-    "allocator stub: stoAlloc/stoResize return fresh non-NULL memory of exactly the requested size; stoSize = that size",
+    "buffer.rd.* class P jobs: argv is an object of exactly argc bytes for EVERY argc <= 2^47 (the target's user address space; CBMC's object-size limit is 2^55), any pos, any contents; any access at or beyond argc is reported by --pointer-check. Class B jobs cap argc as their bound says",
+    "allocator model (contracts/c_buffer.h, C_BUFFER_STO_REFUSING): stoAlloc(0) == NULL as in store.c; a request above 2^47 bytes is refused with a diagnostic (store.c -> compStoreError -> comsgFatal); otherwise fresh non-NULL memory of exactly the requested size; stoSize = that size; stoFree is a no-op",
+    "case splits (n_below_2^63 / n_wraps, terminated / unterminated, len_nonneg / len_negative, lengths_nonneg / length_negative): the two halves are separate jobs and together cover the whole input space; the hostile half is expected to be refused on every path",
 ]
 
 BUF_IN = ["argc", "pos", "data"]
@@ -79,4 +80,94 @@ def jobs(tier):
     J("lib.libGetSection.file_holds_section", "lib_h.c", "h_libGetSection", SEC_FN, SEC_IN, cls="B", bound=SEC_B,
       defs=["-DV_FILE_HOLDS_SECTION"], assumed=LIBASS)
     J("lib.libGetSection.any_file", "lib_h.c", "h_libGetSection", SEC_FN, SEC_IN, cls="B", bound=SEC_B, assumed=LIBASS)
+
+    # ---- (c) foam.c decoders on arbitrary bytes: one job per value of the FIRST byte (tag + format) -----------------
+    rows = foam_rows()
+    vstart = [n for n, _, _ in rows].index("FOAM_Unimp")          # FOAM_VECTOR_START (foam.h: FOAM_Unimp = FOAM_VECTOR_START)
+    limit = len(rows)                                              # FOAM_LIMIT
+    span = limit - vstart
+    DEC_B = "buffer <= 24 bytes, argc symbolic (truncation), first byte fixed per job (all 256 values are jobs), no code children"
+    DEC_ASS = ["xsfToNative/xdfToNative stubbed under CBMC (C19 owns them)", "bytes between argc and the 24-byte object are excluded by the buffer.rd.* contracts, not by the pointer check (see foam_dec_h.c)",
+               "labelFmt (file static) is 0 or 1, as FOAM_FORMAT_FOR leaves it"]
+    D0_UNW = ["--object-bits", "12", "--unwindset", "foamFrBuffer0.0:26,foamFrBuffer0:2,v_spec_len.0:26", "--unwinding-assertions"]
+    D0_UNW_NA = ["--object-bits", "12", "--unwindset", "foamFrBuffer0.0:26,foamFrBuffer0:2,v_spec_len.0:26"]
+    D_UNW = ["--object-bits", "12", "--unwindset",
+             "foamFrBuffer.0:14,foamFrBuffer.1:26,foamFrBuffer:2,v_spec_len.0:26,foamNewEmpty.0:26,strncpy.0:26,bintFrPlacevS.0:14", "--unwinding-assertions"]
+    D_UNW_NA = [x for x in D_UNW if x != "--unwinding-assertions"]
+    DEC_IN = ["argc", "data", "lf"]
+    for byte in range(256):
+        fmt = 0 if byte < vstart else (byte - vstart) // span
+        tag = byte - fmt * span
+        name, nary, argf = rows[tag]
+        ent = "0x%02x" % byte
+        label = "%s.%s.fmt%d" % (ent, name[5:], fmt)
+        has_code = "C" in argf
+        signed_len = fmt == 0 and (nary or "s" in argf or "n" in argf)
+        data_tag = tag < vstart
+        if "!" in argf:           # FOAM_Arb "cannot be written to a file": every path must refuse
+            J("foam.dec0.%s.must_refuse" % label, "foam_dec_h.c", "h_dec0_" + ent, ["foamFrBuffer0"], DEC_IN, cls="B", bound=DEC_B,
+              defs=["-DV_MUST_REFUSE"], cbmc=D0_UNW_NA, assumed=DEC_ASS)
+            J("foam.dec.%s.must_refuse" % label, "foam_dec_h.c", "h_dec_" + ent, ["foamFrBuffer"], DEC_IN, cls="B", bound=DEC_B,
+              defs=["-DV_MUST_REFUSE"], cbmc=D_UNW_NA, assumed=DEC_ASS + ["xsfToNative/xdfToNative stubbed (C19 owns them)"], timeout=600)
+            continue
+        # -- foamFrBuffer0, the skipper
+        if not has_code:
+            if signed_len:
+                J("foam.dec0.%s.lengths_nonneg" % label, "foam_dec_h.c", "h_dec0_" + ent, ["foamFrBuffer0"], DEC_IN, cls="B", bound=DEC_B,
+                  defs=["-DV_NO_NEG_LEN"], cbmc=D0_UNW, assumed=DEC_ASS)
+                J("foam.dec0.%s.length_negative" % label, "foam_dec_h.c", "h_dec0_" + ent, ["foamFrBuffer0"], DEC_IN, cls="B", bound=DEC_B,
+                  defs=["-DV_NEG_LEN"], cbmc=D0_UNW_NA, assumed=DEC_ASS)
+            else:
+                J("foam.dec0." + label, "foam_dec_h.c", "h_dec0_" + ent, ["foamFrBuffer0"], DEC_IN, cls="B", bound=DEC_B,
+                  cbmc=D0_UNW, assumed=DEC_ASS)
+        elif tier == "thorough" and fmt == 0 and argf.count("C") == 1 and not nary:
+            # one code child whose tag is symbolic; shapes with two or more children / n-ary exhaust 8 GB (probed: RRec 'CC', Seq 'C*')
+            J("foam.dec0.%s.with_one_child" % label, "foam_dec_h.c", "h_dec0_" + ent, ["foamFrBuffer0"], DEC_IN, cls="B",
+              bound="buffer <= 12 bytes, one code child of any tag, recursion depth 2", defs=["-DV_DEC_MAX=12"], timeout=600,
+              cbmc=["--object-bits", "12", "--unwindset", "foamFrBuffer0.0:14,foamFrBuffer0:2,v_spec_len.0:14"], assumed=DEC_ASS)
+        # -- foamFrBuffer, the tree builder (node construction costs ~10 s of symex per node: data tags in quick)
+        if not has_code and (tier == "thorough" or data_tag or name in ("FOAM_BInt", "FOAM_Unimp")):
+            fns = ["foamFrBuffer", "foamNewEmpty", "foamNewAlloc"]
+            if "n" in argf:
+                continue        # bintFrPlacevS belongs to bigint.c (C11); the 'n' field is covered for the skipper above
+            if signed_len:
+                J("foam.dec.%s.lengths_nonneg" % label, "foam_dec_h.c", "h_dec_" + ent, fns, DEC_IN, cls="B", bound=DEC_B,
+                  defs=["-DV_NO_NEG_LEN"], cbmc=D_UNW, assumed=DEC_ASS, timeout=600)
+                J("foam.dec.%s.length_negative" % label, "foam_dec_h.c", "h_dec_" + ent, fns, DEC_IN, cls="B", bound=DEC_B,
+                  defs=["-DV_NEG_LEN"], cbmc=D_UNW_NA, assumed=DEC_ASS, timeout=600)
+            else:
+                J("foam.dec." + label, "foam_dec_h.c", "h_dec_" + ent, fns, DEC_IN, cls="B", bound=DEC_B,
+                  cbmc=D_UNW, assumed=DEC_ASS, timeout=600)
+    # n-ary node whose 4-byte count has the top bit set: the allocation must have room for the count, or be refused
+    seq = [n for n, _, _ in rows].index("FOAM_Seq")
+    J("foam.dec.0x%02x.Seq.fmt0.count_negative" % seq, "foam_dec_h.c", "h_dec_0x%02x" % seq, ["foamFrBuffer", "foamNewEmpty", "foamNewAlloc"],
+      DEC_IN, cls="B", bound=DEC_B, defs=["-DV_COUNT_NEGATIVE"], assumed=DEC_ASS,
+      cbmc=["--object-bits", "12", "--unwindset", "foamFrBuffer.0:2,foamFrBuffer.1:2,foamFrBuffer:1,foamNewEmpty.0:3"])
+    # ---- (d) archive.c: member name read from an "ar" header, indirect names ("/<offset>") into the name table -------
+    if tier == "thorough":
+        J("archive.arRdItemArch.any_name_field", "archive_h.c", "h_arRdItemArch",
+          ["arRdItemArch", "arRdItemArch0", "arReadNameTable", "arReadText", "arReadNumber", "arSeek"],
+          ["img", "flen", "nsz", "tbl", "havetbl"], cls="B",
+          bound="untruncated 60-byte header whose numeric fields are 0, 16-byte name field arbitrary; name table <= 8 bytes or absent",
+          defs=["-DV_FILE_MAX=60", "-DV_NAMES_MAX=8", "-DV_ONLY_NAME_FIELD"], timeout=900,
+          cbmc=["--unwindset", "arRdItemArch:2,arRdItemArch.0:10,arRdItemArch0.0:18,v_scan_lu8.0:10,strcpy.0:4"],
+          assumed=["sscanf(\"%8lu \") and strtol replaced by harness models (libc)", "fnameUnparse stubbed (diagnostic text only)",
+                   "file model: fseek/ftell/fread over an in-memory image"])
     return js
+
+
+def foam_rows():
+    """(tag name, is n-ary, argf) for every row of the REAL foamInfoTable, in table (= tag) order."""
+    import os, re
+    src = os.path.join(os.environ.get("ALDOR_REPO", "/repo"), "aldor/aldor/src/foam.c")
+    text = open(src, encoding="latin-1").read()
+    i = text.index("struct foam_info foamInfoTable[]")
+    body = text[i:text.index("};", i)]
+    rows = re.findall(r'\{\s*(FOAM_\w+)\s*,\s*0\s*,\s*"[^"]*"\s*,\s*([A-Za-z_0-9-]+)\s*,\s*"([^"]*)"', body)
+    assert len(rows) > 50, "foamInfoTable not parsed"
+    out, seen = [], set()
+    for n, a, f in rows:          # the Prog row appears twice (#ifdef NEW_FORMATS / #else): same tag, keep one
+        if n not in seen:
+            seen.add(n)
+            out.append((n, a == "FOAM_NARY", f))
+    return out
